@@ -80,6 +80,32 @@ M = [
   "            .filter(|disease| self.rhs.orpha_disease(disease.id()).is_none())", "            .filter(|disease| self.rhs.omim_disease(&crate::annotations::AnnotationId::as_u32(disease.id()).into()).is_none())", ["C18"]),
  ("c19-modifier-keeps-118-when-last", "C19", "src/ontology.rs",
   "            .filter(|id| id != &crate::PHENOTYPE_ID)\n            .collect();\n        Ok(())", "            .filter(|id| id != &crate::PHENOTYPE_ID || crate::annotations::AnnotationId::as_u32(id) > 200)\n            .take(5)\n            .collect();\n        Ok(())", ["C19"]),
+ ("c09-version-month-day-swapped", "C09", "src/parser/hp_obo.rs",
+  "                        version[5..7].parse().unwrap_or(0u8),\n                        version[8..10].parse().unwrap_or(0u8),", "                        version[8..10].parse().unwrap_or(0u8),\n                        version[5..7].parse().unwrap_or(0u8),", ["C09", "C16"]),
+ ("c08-release-year-little-endian", "C08", "src/ontology/builder.rs",
+  "            let year = u16::from_be_bytes([bytes[0], bytes[1]]);", "            let year = u16::from_le_bytes([bytes[0], bytes[1]]);", ["C08", "C07"]),
+ ("c07-writer-swaps-month-and-day", "C07", "src/ontology.rs",
+  "        bytes.push(self.hpo_version.1);\n        bytes.push(self.hpo_version.2);", "        bytes.push(self.hpo_version.2);\n        bytes.push(self.hpo_version.1);", ["C07"]),
+ ("c19-default-modifier-keeps-phenotype-root", "C19", "src/ontology.rs",
+  "            .children_ids()\n            .iter()\n            .filter(|id| id != &crate::PHENOTYPE_ID)\n            .collect();\n        Ok(())\n    }\n\n    /// Returns a binary representation of the Ontology's metadata",
+  "            .children_ids()\n            .iter()\n            .collect();\n        Ok(())\n    }\n\n    /// Returns a binary representation of the Ontology's metadata", ["C19"]),
+ ("c19-term-categories-descending", "C19", "src/term/hpoterm.rs",
+  "            .filter(|cat| (self.all_parent_ids() | self.id()).contains(cat))\n            .collect()", "            .filter(|cat| (self.all_parent_ids() | self.id()).contains(cat))\n            .collect::<Vec<HpoTermId>>()\n            .into_iter()\n            .rev()\n            .collect()", ["C19"]),
+ ("c10-name-filter-stops-after-first-gap", "C10", "src/annotations/omim_disease.rs",
+  "        self.iter\n            .by_ref()\n            .find(|&item| item.name().contains(self.query))", "        self.iter\n            .by_ref()\n            .take(3)\n            .find(|&item| item.name().contains(self.query))", ["C10"]),
+ ("c10-gene-by-name-prefix-match", "C10", "src/ontology.rs",
+  "        self.genes.values().find(|&gene| gene.name() == symbol)", "        self.genes.values().find(|&gene| gene.name().starts_with(symbol) && !symbol.is_empty())", ["C10"]),
+ ("c18-gene-delta-names-swapped", "C18", "src/ontology/comparison.rs",
+  "        let names = (lhs.name().to_string(), rhs.name().to_string());\n\n        Self::delta(lhs_terms, rhs_terms, names, lhs.id().to_string())\n    }\n\n    /// Constructs a new [`AnnotationDelta`] by comparing two [`OmimDisease`]s",
+  "        let names = (rhs.name().to_string(), lhs.name().to_string());\n\n        Self::delta(lhs_terms, rhs_terms, names, lhs.id().to_string())\n    }\n\n    /// Constructs a new [`AnnotationDelta`] by comparing two [`OmimDisease`]s", ["C18"]),
+ ("c02-binary-gene-first-term-not-propagated", "C02", "src/ontology/builder.rs",
+  "            for term in gene.hpo_terms() {\n                self.link_gene_term(term, *gene.id())?;", "            for term in gene.hpo_terms().iter().skip(usize::from(gene.hpo_terms().len() > 3)) {\n                self.link_gene_term(term, *gene.id())?;", ["C02", "C08"]),
+ ("c09-gene-header-eats-first-row-after-hash-header", "C09", "src/parser.rs",
+  "        if !trash.starts_with('#')\n", "        if trash.starts_with(\"#Format\") {\n            let mut more = String::new();\n            let _ = reader.read_line(&mut more);\n        }\n        if !trash.starts_with('#')\n", ["C09"]),
+ ("c03-gene-ic-counts-omim-links", "C03", "src/ontology/builder.rs",
+  "            let current_genes = term.genes().len();", "            let current_genes = term.genes().len().max(usize::from(term.omim_diseases().len() > 5));", ["C03"]),
+ ("c14-links-to-root-dropped-for-deep-terms", "C14", "src/ontology.rs",
+  "                if ids.contains(&parent) {\n                    builder.add_parent_unchecked(parent, *term.id());", "                if ids.contains(&parent) && !(parent == root.id() && term.parents().len() > 2) {\n                    builder.add_parent_unchecked(parent, *term.id());", ["C14", "C01"]),
  ("harness-process-abort-is-reported", "C10", "src/ontology.rs",
   "    pub fn hpo_version(&self) -> String {\n", "    pub fn hpo_version(&self) -> String {\n        if self.len() == 7 {\n            return self.hpo_version();\n        }\n", ["C10"]),
  ("c19-is-modifier-ancestors-only", "C19", "src/term/hpoterm.rs",
